@@ -116,6 +116,16 @@ def run(ctx):
     finally:
         import shutil
         shutil.rmtree(vdir, ignore_errors=True)
+    # (1c) descriptor numbers are process-wide state too: in the configuration that reads /dev/urandom every descriptor the library opens must be closed exactly once
+    #      (a second close destroys whatever another thread was given under that number in between); the PRNG histories of C15 are run with open / read / close counted
+    try:
+        DEV = ("HAVE_GETENTROPY", "HAVE_GETRANDOM", "HAVE_SYS_SYSCALL_H")
+        dlib = build.build_lib("asm", drop=DEV, extra=["-U__linux__", "-U__linux", "-Ulinux"])
+        dexe = build.build_prog("c15", ["harness/c15.c", "harness/sysrand.c", "ref/ref.c"], dlib, opt="-O2", extra=["-DVP_SYSRAND_DEVICE"])
+        common.run_harness(ctx, dexe, [2, 0, 22, 0], label="dev-urandom", env={"VP_CHECK_DESCRIPTORS": "1"})
+        ctx.configs.append(dlib["desc"] + " /dev/urandom configuration (descriptor discipline)")
+    except build.BuildError as e:
+        ctx.fail("build-error:dev-urandom", str(e)[-500:])
     # (2) explorer on the C back ends
     budget = max(30.0, min(ctx.remaining() * 0.55, 1500.0 if t else 110.0))
     for be in (("c64", "c32", "generic") if t else ("c64", "c32")):
